@@ -174,16 +174,23 @@ class Result:
     def sample(self, case, limit=6):
         if len(self.samples) < limit: self.samples.append(case)
     def fail(self, case, what, expected=None, got=None):
-        if len(self.failures) < 200:
+        # keep at most 12 failures per kind so that one frequent kind cannot hide another
+        self.fail_counts = getattr(self, 'fail_counts', {})
+        self.fail_counts[what] = self.fail_counts.get(what, 0) + 1
+        if self.fail_counts[what] <= 12:
             self.failures.append({'case': case, 'what': what, 'expected': expected, 'got': got})
-        else:
-            self.failures_dropped = getattr(self, 'failures_dropped', 0) + 1
     def merge(self, other):
         self.evaluations += other.evaluations
         self.distinct |= other.distinct
         for k, v in other.strata.items(): self.strata[k] = self.strata.get(k, 0) + v
         for s in other.samples: self.sample(s, limit=8)
-        self.failures.extend(other.failures[:max(0, 400 - len(self.failures))])
+        self.fail_counts = getattr(self, 'fail_counts', {})
+        for k, v in getattr(other, 'fail_counts', {}).items(): self.fail_counts[k] = self.fail_counts.get(k, 0) + v
+        per = {}
+        for fl in self.failures: per[fl['what']] = per.get(fl['what'], 0) + 1
+        for fl in other.failures:
+            if per.get(fl['what'], 0) < 40:
+                self.failures.append(fl); per[fl['what']] = per.get(fl['what'], 0) + 1
         self.notes.extend(other.notes)
         if other.exhaustive is not None:
             self.exhaustive = other.exhaustive if self.exhaustive is None else (self.exhaustive and other.exhaustive)
